@@ -508,6 +508,115 @@ def connect_jobs():
     return [cases[i::32] for i in range(32)]
 
 
+# ------------------------------------------------------------------ waiting on a process whose output was left unread
+LATE_APIS = ['wait', 'communicate', 'read-all', 'wait_closed', 'run-like']
+
+
+def late_wait_case(n, k, api):
+    """A process is created and left alone for k deliveries (nothing reads its output, which may fill the stream
+    buffer and pause the channel); then the application waits for it.  The peer exits on its own: the wait
+    must end, with the complete output and the exit status."""
+    W = 64
+    loop = P.fresh(0)
+    P.install_wire_labels()
+    viol = []
+    out_data = bytes((i * 3 + 1) % 251 for i in range(n))
+    err_data = bytes((i * 5 + 2) % 241 for i in range(n // 2))
+    try:
+        async def handler(process):
+            process.stdout.write(out_data)
+            process.stderr.write(err_data)
+            process.exit(7)
+        pair = P.Pair(loop, sopts=dict(process_factory=handler, encoding=None))
+        pair.handshake()
+        st, res = {}, {}
+
+        async def client():
+            st['p'] = await pair.c.create_process('x', encoding=None, window=W, max_pktsize=W // 2)
+        t = loop.create_task(client())
+
+        async def waiter():
+            p = st['p']
+            if api == 'wait':
+                r = await p.wait()
+                res['out'], res['err'], res['status'] = r.stdout, r.stderr, r.exit_status
+            elif api == 'communicate':
+                o, e = await p.communicate()
+                res['out'], res['err'], res['status'] = o, e, p.exit_status
+            elif api == 'read-all':
+                # both streams at once: reading one to EOF while the other fills the shared buffer is the
+                # application's own deadlock, like with OS pipes
+                o, e = await asyncio.gather(p.stdout.read(), p.stderr.read())
+                await p.wait_closed()
+                res['out'], res['err'], res['status'] = o, e, p.exit_status
+            elif api == 'wait_closed':
+                await p.wait_closed()
+                o, e = p.collect_output()
+                res['out'], res['err'], res['status'] = None, None, p.exit_status
+            else:
+                o = await p.stdout.read(min(10, n))
+                r = await p.wait()
+                res['out'], res['err'], res['status'] = o + r.stdout, r.stderr, r.exit_status
+        steps = 0
+        wt = None
+        while True:
+            loop.quiesce()
+            if wt is None and t.done() and steps >= k:
+                wt = loop.create_task(waiter())
+                loop.quiesce()
+            opts = [x for x in (pair.ct, pair.st) if x in loop.deliverable()]
+            if not opts:
+                if wt is None and t.done():
+                    wt = loop.create_task(waiter())
+                    continue
+                break
+            P.deliver_packet(loop, opts[0])
+            if t.done():
+                steps += 1
+            if steps > 5000:
+                raise Livelock('too many deliveries')
+        if wt is None or not wt.done():
+            if api == 'wait_closed' and wt is not None:
+                # nobody reads: the channel cannot close while output is window-blocked; legitimate
+                pass
+            else:
+                p = st.get('p')
+                viol.append(('waiter-hung', '%s() still pending although the peer wrote %d bytes, exited and nothing else is in flight '
+                             '(called after %d deliveries; stream buffer %s bytes)'
+                             % (api, n, k, getattr(p, '_recv_buf_len', '?') if p else '?')))
+        elif wt.exception() is not None:
+            viol.append(('waiter-raised', '%s: %r' % (api, wt.exception())))
+        elif res.get('out') is not None:
+            if res['out'] != out_data or res['err'] != err_data:
+                viol.append(('output-incomplete', '%s returned %d/%d stdout and %d/%d stderr bytes' % (api, len(res['out']), n, len(res['err']), len(err_data))))
+            if res['status'] != 7:
+                viol.append(('exit-status-lost', repr(res['status'])))
+        exc = loop.unretrieved()
+        if exc:
+            viol.append(('loop-exception', repr(exc[0].get('exception') or exc[0].get('message'))[:300]))
+        return {'viol': viol, 'steps': steps}
+    except Livelock as exc:
+        return {'viol': [('livelock', str(exc))], 'steps': 0}
+    finally:
+        P.done(loop)
+
+
+def late_wait_worker(job):
+    acc = core.Acc()
+    for n, k, api in job:
+        obs = late_wait_case(n, k, api)
+        acc.add(core.digest(('late-wait', n, k, api)), transitions=obs['steps'] + 1,
+                sample={'process_output_bytes': n, 'waited_after_deliveries': k, 'api': api} if n == 200 and k == 9 and api == 'wait' else None)
+        for kind, detail in obs['viol']:
+            acc.violation('term:%s:late-%s' % (kind, api), '%s ; n=%d k=%d' % (detail, n, k), {'late_wait': [n, k, api]})
+    return acc
+
+
+def late_wait_jobs():
+    cases = [(n, k, api) for api in LATE_APIS for n in (10, 63, 64, 65, 200, 400) for k in range(0, 24)]
+    return [cases[i::16] for i in range(16)]
+
+
 def worker(job):
     cfg, bound, prefix = job
     acc = core.Acc()
@@ -563,6 +672,7 @@ def main(tier, seed):
     acc = core.pmap(worker, core.rotate(js, seed), chunksize=2)
     shutil.rmtree(SCRATCH, ignore_errors=True)
     acc.merge(core.pmap(connect_worker, connect_jobs()))
+    acc.merge(core.pmap(late_wait_worker, late_wait_jobs()))
     rule = ('client programs {exec via callback session, stream session with blocked drain/read, run, '
             'sftp with outstanding requests, sftp with a request abandoned by its caller before later ones, remote port forward listener, three concurrent remote forward requests '
             'against a slow server application} x server behaviours {echo, '
@@ -572,7 +682,9 @@ def main(tier, seed):
             'either side}; all schedules with <= bound deviations; the run ends with loss of the '
             'connection; distinct = distinct schedule.  connect() itself (and connect()+run()) against listen(): after '
             'every number of deliveries the link is cut, either side sees EOF, the server aborts or closes, the '
-            'listener goes away, or everything falls silent and only the login timers remain')
+            'listener goes away, or everything falls silent and only the login timers remain.  A process left unread '
+            'for 0..23 deliveries (output of 6 sizes around the window) and then waited for through wait / communicate / '
+            'read / wait_closed')
     return core.finish(PROP, tier, seed, 'model_checking', acc, t0, rule,
                        {'deviation_bound': '2 for the exec program (quick) or all programs (thorough), else 1',
                         'jobs': len(js)},
@@ -582,6 +694,13 @@ def main(tier, seed):
 
 def replay(rep):
     r = rep['replay']
+    if 'late_wait' in r:
+        obs = late_wait_case(*r['late_wait'])
+        print(json.dumps(obs, indent=1, default=repr))
+        if obs['viol']:
+            print('VIOLATION property=%s replay=(given)' % PROP)
+            return 1
+        return 0
     if 'connect' in r:
         obs = connect_case(*r['connect'])
         print(json.dumps(obs, indent=1, default=repr))
